@@ -30,6 +30,8 @@ type textFlow struct {
 }
 
 func checkC24(r *core.Run, p *core.Program) {
+	r.Rule("C24.case-pairs", "the CTE grammar is case-insensitive for every letter it uses in number prefixes, exponents, special values and escapes: wherever the hand-written parser tests token text against an ASCII letter (== / != / case with a character literal, strings.HasPrefix/HasSuffix/Contains*/Index* with a literal), the same function tests the same text against the letter's other case as well (or the text was lower/upper-cased first); a one-sided test rejects or misreads a spelling the lexer accepts.")
+	checkC24CasePairs(r, p)
 	r.Rule("C24.base0", "text of a lexer token that admits a decimal integer with leading zeros (PINT_DEC/NINT_DEC, decimal array elements, custom type codes, the version digit) is never handed to strconv.ParseInt/ParseUint or big.Int.SetString with the base fixed to 0 (Go would read the leading 0 as an octal prefix: 010 -> 8, 08 -> error): the base on that path is a constant 10, or a variable that is set to 10 for unprefixed text.")
 	r.Rule("C24.separators", "text of a lexer token that admits the digit separator '_' passes strings.ReplaceAll(text, \"_\", \"\") (directly, in a normalising helper, or in every caller) before any strconv / math/big / third-party number parser sees it (Go accepts '_' only with base 0 and only singly).")
 	r.Rule("C24.base-chain", "for every typed-array header token: lexer mode, parser alternative, listener method, numeric base handed to strconv and element bit size agree.")
@@ -1117,4 +1119,87 @@ func definingCall(info *types.Info, f *fn, v types.Object) *ast.CallExpr {
 		return out
 	}
 	return nil
+}
+
+func checkC24CasePairs(r *core.Run, p *core.Program) {
+	pkg := p.Pkg("cte")
+	info := pkg.TypesInfo
+	swap := func(lit string) (string, bool) {
+		has := false
+		out := []byte(lit)
+		for i := 1; i+1 < len(out); i++ { // inside the quotes
+			c := out[i]
+			if c == '\\' {
+				return "", false // escapes: not a plain letter literal
+			}
+			if c >= 'a' && c <= 'z' {
+				out[i] = c - 32
+				has = true
+			} else if c >= 'A' && c <= 'Z' {
+				out[i] = c + 32
+				has = true
+			}
+		}
+		return string(out), has
+	}
+	n := 0
+	for _, f := range funcsOf(pkg) {
+		file := p.Fset.Position(f.Decl.Pos()).Filename
+		if !strings.HasSuffix(file, "/cte/parser.go") {
+			continue
+		}
+		type item struct {
+			subj, kind, lit string
+			pos            token.Pos
+		}
+		var items []item
+		add := func(subj ast.Expr, kind string, lit ast.Expr) {
+			bl, ok := stripParens(lit).(*ast.BasicLit)
+			if !ok || (bl.Kind != token.CHAR && bl.Kind != token.STRING) {
+				return
+			}
+			items = append(items, item{exprStr(stripParens(subj)), kind, bl.Value, bl.Pos()})
+		}
+		ast.Inspect(f.Decl.Body, func(nd ast.Node) bool {
+			switch x := nd.(type) {
+			case *ast.BinaryExpr:
+				if x.Op == token.EQL || x.Op == token.NEQ {
+					add(x.X, "cmp", x.Y)
+					add(x.Y, "cmp", x.X)
+				}
+			case *ast.SwitchStmt:
+				if x.Tag != nil {
+					for _, c := range x.Body.List {
+						for _, e := range c.(*ast.CaseClause).List {
+							add(x.Tag, "cmp", e)
+						}
+					}
+				}
+			case *ast.CallExpr:
+				if c := callee(info, x); c != nil && c.Pkg() != nil && c.Pkg().Path() == "strings" && len(x.Args) == 2 {
+					switch c.Name() {
+					case "HasPrefix", "HasSuffix", "Contains", "ContainsRune", "Index", "IndexByte", "IndexRune", "LastIndex", "LastIndexByte":
+						add(x.Args[0], c.Name(), x.Args[1])
+					}
+				}
+			}
+			return true
+		})
+		for _, it := range items {
+			sw, has := swap(it.lit)
+			if !has {
+				continue
+			}
+			n++
+			ok := strings.Contains(it.subj, "ToLower(") || strings.Contains(it.subj, "ToUpper(")
+			for _, o := range items {
+				if o.subj == it.subj && o.kind == it.kind && o.lit == sw {
+					ok = true
+				}
+			}
+			r.Check("C24.case-pairs", f.Name()+"|"+it.kind+" "+it.subj+" "+it.lit, it.pos, ok,
+				"the text "+it.subj+" is tested against "+it.lit+" but not against "+sw+" in this function: the lexer accepts both spellings, so the other one is rejected or read as something else")
+		}
+	}
+	r.Floor("C24.case-pairs", "letter tests on token text", n, 10)
 }
